@@ -287,10 +287,18 @@ class Helper:
             return False, "*args/**kwargs"
         if isinstance(n, ast.AsyncFunctionDef):
             return False, "async"
+        self.generator = False
+        yields = [x for x in ast.walk(n) if isinstance(x, ast.Yield)]
+        if yields:
+            stmt_yields = [x for x in ast.walk(n) if isinstance(x, ast.Expr) and isinstance(x.value, ast.Yield)]
+            if len(stmt_yields) != len(yields) or any(y.value is None for y in yields) \
+                    or any(isinstance(x, ast.Return) and x.value is not None for x in ast.walk(n)):
+                return False, "generator with yield expressions"
+            self.generator = True
         for x in ast.walk(n):
             if x is n:
                 continue
-            if isinstance(x, (ast.Yield, ast.YieldFrom, ast.Await, ast.Global, ast.Nonlocal, ast.FunctionDef,
+            if isinstance(x, (ast.YieldFrom, ast.Await, ast.Global, ast.Nonlocal, ast.FunctionDef,
                               ast.AsyncFunctionDef, ast.ClassDef, ast.Lambda)):
                 return False, type(x).__name__
             if isinstance(x, ast.Call):
@@ -395,6 +403,8 @@ class ModuleInliner:
         """mode: 'value' (result assigned to `res`), 'stmt' (value dropped), 'return' (returns kept)"""
         if not h.ok:
             raise NotInlinable(h.why)
+        if h.generator and mode != "for":
+            raise NotInlinable("generator used outside a for statement")
         params = h.params
         bind: Dict[str, ast.AST] = {}
         if h.is_method:
@@ -441,7 +451,24 @@ class ModuleInliner:
                 rename[n_] = n_ + tag
         holder = _Subst(mapping, rename).visit(holder)
         body = holder.body
-        if mode == "return":
+        if mode == "for":
+            # `for T in helper(...): BODY` with a generator helper: the generator's statements run interleaved with the
+            # loop body, every `yield E` hands E to one execution of BODY
+            target, loop_body = res
+            sel = self
+
+            class Y(ast.NodeTransformer):
+                def visit_Expr(self, node):
+                    if isinstance(node.value, ast.Yield):
+                        asg = ast.copy_location(ast.Assign([copy.deepcopy(target)], node.value.value), node)
+                        return [asg] + copy.deepcopy(loop_body)
+                    return node
+
+                def visit_Return(self, node):
+                    raise NotInlinable("return inside the generator")
+            holder2 = Y().visit(ast.Module(body=body, type_ignores=[]))
+            out = prelude + holder2.body
+        elif mode == "return":
             if not body or not isinstance(body[-1], (ast.Return, ast.Raise)):
                 # may fall off the end: the caller then returns None
                 body = body + [ast.copy_location(ast.Return(ast.Constant(None)), call)]
@@ -451,7 +478,21 @@ class ModuleInliner:
             if mode == "value" and not term:
                 new = [ast.copy_location(ast.Assign([_target(res)], ast.Constant(None)), call)] + new
             out = prelude + new
-        return [ast.fix_missing_locations(s) for s in out] or [ast.copy_location(ast.Pass(), call)]
+        out = [ast.fix_missing_locations(s) for s in out] or [ast.copy_location(ast.Pass(), call)]
+        # spliced statements take the position of the call (file:line in a report is then the call site, and rules
+        # that order statements by position see them where they are executed); columns keep their relative order
+        k = [getattr(call, "col_offset", 0)]
+
+        def place(n):
+            if hasattr(n, "lineno") or isinstance(n, (ast.stmt, ast.expr)):
+                n.lineno = n.end_lineno = getattr(call, "lineno", 0)
+                n.col_offset = n.end_col_offset = k[0]
+                k[0] += 1
+            for c in ast.iter_child_nodes(n):
+                place(c)
+        for s in out:
+            place(s)
+        return out
 
     # ------------------------------------------------------------------ rewriting
     def rewrite_function(self, fn: ast.FunctionDef, cls: Optional[ast.ClassDef]) -> bool:
@@ -506,6 +547,21 @@ class ModuleInliner:
         except NotInlinable as exc:
             self.skipped.append("%s: %s" % (getattr(s, "lineno", 0), exc))
             return [s]
+        # a generator helper driving a for loop
+        if isinstance(s, ast.For) and not s.orelse and isinstance(s.iter, ast.Call):
+            r = self.resolve(s.iter, cls)
+            if r and r[0].ok and r[0].generator:
+                h, recv = r
+                own = [x for x in s.body for y in ast.walk(x) if isinstance(y, (ast.Break, ast.Continue))]
+                nested_loops = [l for x in s.body for l in ast.walk(x) if isinstance(l, (ast.For, ast.While))]
+                jumps_in_nested = [y for l in nested_loops for y in ast.walk(l) if isinstance(y, (ast.Break, ast.Continue))]
+                if len(own) == len(jumps_in_nested):      # no break/continue that belongs to this loop
+                    try:
+                        body = self.splice(h, recv, s.iter, fn, "for", (s.target, s.body))
+                        self.inlined.append(h.node.name)
+                        return body
+                    except NotInlinable as exc:
+                        self.skipped.append("%s: %s" % (getattr(s, "lineno", 0), exc))
         # calls nested in strict positions of the statement's expressions
         exprs: List[ast.AST] = []
         if isinstance(s, (ast.Assign, ast.AnnAssign, ast.AugAssign, ast.Expr, ast.Return)):
